@@ -324,7 +324,19 @@ func refMin(a, b int) int {
 // any order with RM's canonical proof, and 0..maxAdd fresh additions.
 func (f *refForest) refBlock(v *refView, maxDel, maxAdd int) *refBlockT {
 	b := &refBlockT{}
-	if verifParam("orderedDel", 1) == 1 {
+	if verifParam("wholeTree", 0) == 1 && len(v.roots) > 0 {
+		// optionally all live leaves of one whole tree, plus up to maxDel others (ascending)
+		t := verifChoose("wholeTree", -1, len(v.roots)-1)
+		var others []int
+		for _, s := range f.liveSlots() {
+			if t >= 0 && v.nodes[v.leafIdx[s]].tree == t {
+				b.delSlots = append(b.delSlots, s)
+			} else {
+				others = append(others, s)
+			}
+		}
+		b.delSlots = append(b.delSlots, refPickCombo("del", others, maxDel)...)
+	} else if verifParam("orderedDel", 1) == 1 {
 		b.delSlots = refPickSubset("del", f.liveSlots(), maxDel)
 	} else {
 		b.delSlots = refPickCombo("del", f.liveSlots(), maxDel)
